@@ -1,4 +1,4 @@
-SPECIFICATION GenSpec
+SPECIFICATION FairSpec
 CONSTANTS
   Writers <- MCWriters
   Readers <- MCReaders
@@ -10,10 +10,11 @@ CONSTANTS
   Bug_PublishEarly = FALSE
   Bug_NoNotify = FALSE
   Bug_SnapshotUnlocked = FALSE
-  MaxFaults = 0
-  AnyPrefix = FALSE
+  MaxFaults = 1
+  AnyPrefix = TRUE
   Bug_FollowersToldOk = FALSE
   Bug_RejectedFollowerDone = FALSE
   Bug_FailedRoomStaysQueued = FALSE
-INVARIANTS Emit
+INVARIANTS Linearizable BatchAtomic SeqSane OwnResult StickyError
+PROPERTIES AllWritersReturn BgQuiesces
 CHECK_DEADLOCK FALSE
